@@ -370,6 +370,11 @@ class Session:
         self.exp_lemmas = 0
         self.inconclusive: list[str] = []
         self.cex: list[dict] = []
+        self.twins = 0
+        self.twin_budget = 2
+        self.cvc5_checked = 0
+        self.cvc5_unknown = 0
+        self.cvc5_budget = 1
 
     def sync(self):
         a = self.ctx.assumptions
@@ -389,6 +394,38 @@ class Session:
             raise HarnessError(f"vacuous case: assumptions and path condition are {r}")
 
     def prove(self, goal: T.Term, label: str, under_pc: bool = True):
+        """prove + vacuity twin: the first non-trivial equalities proved in a session are re-asked with a
+        perturbed right-hand side (b + 1); the perturbed goal must NOT be provable, otherwise the
+        assumptions are inconsistent or the prover proves everything (harness error, exit 3)."""
+        r = self._prove(goal, label, under_pc)
+        g_eq = goal if goal.op == "eq" else next((x for x in goal.args if x.op == "eq"), None) if goal.op == "and" else None
+        if r == "valid" and self.twins < self.twin_budget and g_eq is not None:
+            a, b = g_eq.args
+            twin = T.eq(a, T.add(b, T.ONE))
+            if twin is not T.FALSE:
+                extra = [t for t, _ in self.ctx.pc] if under_pc else []
+                if self.q.identity(twin):
+                    raise HarnessError(f"vacuity twin proved by the identity stage: {label}")
+                rr, _ = self.q.check_sat(extra + [T.not_(twin)])
+                if rr == "unsat":
+                    raise HarnessError(f"vacuity twin is valid (assumptions inconsistent or prover unsound): {label}")
+            self.twins += 1
+            # second solver on the same encoding (one proved obligation per session): cvc5 must not find a
+            # model of the negated goal
+            if self.cvc5_checked + self.cvc5_unknown < self.cvc5_budget:
+                from .smt import cvc5_check
+
+                extra = [t for t, _ in self.ctx.pc] if under_pc else []
+                rc = cvc5_check(self.q.to_smt2(extra + [T.not_(goal)]), 5000)
+                if rc == "unsat":
+                    self.cvc5_checked += 1
+                elif rc == "sat":
+                    raise HarnessError(f"solver disagreement: z3 proves, cvc5 finds a model of the negation: {label}")
+                else:
+                    self.cvc5_unknown += 1
+        return r
+
+    def _prove(self, goal: T.Term, label: str, under_pc: bool = True):
         """returns 'valid' | 'cex' | 'unknown'; records counterexample model on cex.
 
         Strategy: (1) syntactic (hash-consed normal forms coincide); (2) polynomial identity by z3's
